@@ -71,6 +71,13 @@ def run_unit(A, unit, rep, tier):
                                      f"{caller} reads the backend while the tree-wide suspend counter is raised: for the whole duration of the I/O every other thread's save on this tree is silently skipped (a writer returns normally and its update is lost)",
                                      g.witness(g.path(g.entry, [n.id])), g.label)
                 for n in tests:
+                    own_classes = {c_.name for x in n["cond"].walk() if x.kind == "obj" and hasattr(x.args[0], "mro") for c_ in x.args[0].mro}
+                    if n.func.split(".")[0] in own_classes:
+                        rep.ok("C14.b")  # the counter's own bookkeeping (its change events are obligations of C14.a)
+                        continue
+                    if not decides_something(g, n):
+                        rep.ok("C14.b")  # both outcomes of the test lead to the same effects (e.g. a no-op hook)
+                        continue
                     if all(want in held_ids(s) for s in st.get(n.id, [()])):
                         rep.ok("C14.b")
                     else:
@@ -80,6 +87,24 @@ def run_unit(A, unit, rep, tier):
                 check_one_snapshot(g, st, want, rep)
     if A.is_buffered(cls):
         c13.run_unit(A, unit, rep, tier, readers_only=True, rule="C14.c")
+
+
+def decides_something(g, b):
+    """The branch guards an effect: the sets of effect events (backend reads / writes, data or class-state
+    mutations, counter changes, calls into the load / save protocol) reachable from its two arms differ."""
+    arms = [y for (y, l) in g.succ[b.id]]
+    if len(arms) < 2:
+        return True  # pruned / correlated branch: keep the conservative answer
+    def effects(a):
+        out = set()
+        for i in g.reachable_from([a]):
+            n = g.nodes[i]
+            if n.kind in ("data_mut", "cs_write", "count", "attr_store", "raise") or is_res_read(n) or is_res_write(n) \
+                    or (n.kind == "enter" and n["fname"] in ("_load_from_resource", "_load_from_buffer", "_save_to_resource", "_save_to_buffer", "_update", "_flush", "_flush_buffer")):
+                out.add(i)
+        return out
+    sets = [effects(a) for a in arms]
+    return any(s_ != sets[0] for s_ in sets[1:])
 
 
 def _outer_load(n):
